@@ -798,6 +798,13 @@ func Systematic(bases []*Pkg, tier string, seed int64, stats map[string]int) []*
 			}
 			add(base, f, "unicode-strings", sysUnicodeStrings(f), nil)
 			{
+				eds, ins := sysPrependStmt(f)
+				add(base, f, "prepend-stmt", eds, ins)
+				if lastAdded != nil {
+					lastAdded.InsWhat = "the statement `_ = 0` in front of the first statement of every function body"
+				}
+			}
+			{
 				eds, extra := sysSplitDecls(base, f)
 				extraFiles = extra
 				add(base, f, "split-decls", eds, nil)
